@@ -6,7 +6,7 @@ reg(Prop('C07', [
     Stream('c07.value', 20000, 1000000, 'model', shards=3, exhaustive='every Value operation x every pair of value types x boundary operands x address masks (incl. masks that are not 2^k-1); shift counts 0..70 in every integer type; convert/reinterpret to every type; Value::parse lengths 0..9'),
     Stream('c07.eval', 20000, 1000000, 'model', shards=3, exhaustive='every program of length <= 3 over the 41-letter alphabet of DESIGN C07 after a 3-deep prelude, address sizes 1/2/4/8 (thorough: length 4 at size 4, second prelude length 3); with initial value / fixed-capacity storage: length <= 2; Evaluation::new for every address size 0..255; iteration-limit sweeps 0..9'),
     Stream('c07.spec', 10000, 500000, 'spec', shards=3, exhaustive='every Value operation x matching type pairs x boundary operands x address sizes 1/2/4/8, generic results reduced modulo the address size, against the specification algebra (Spec/StackSpec.v); class k = generic shift counts beyond the address size (known finding) incl. evaluator-level witnesses'),
-], level='proof (partial)', design_ref='§5 C07',
+], level='proof', design_ref='§5 C07',
     clauses=[
         'decode_table: Operation::parse = table-driven decode of the DWARF 5 operand layout, all 256 opcode bytes, every encoding, both build modes',
         'decode_roundtrip: parse (canonical encoding of o ++ rest) = (o, rest) for every well-formed operation',
